@@ -19,6 +19,7 @@ git apply "$OUT/patch.diff"
 echo "demo with change rc=$with (want != 0), without change rc=$without (want 0)"
 suite="skipped"
 if [ "${SEEDED_SUITE:-1}" = 1 ]; then
+  cargo test --workspace --no-run --offline >/dev/null 2>&1   # build outside the lock (the lock only serialises the fixed ports)
   flock /tmp/penguin-suite.lock cargo test --workspace --no-fail-fast --offline >/tmp/out-$ID/suite.log 2>&1
   failed=$(python3 - /tmp/out-$ID/suite.log <<'PY'
 import json,re,sys
